@@ -77,13 +77,17 @@ func checkC02() *CheckDef {
 		Harnesses: func(tier string) []*sym.HarnessConfig {
 			return []*sym.HarnessConfig{
 				{Name: "h02", Pkg: binPkg, Params: params(tier), Budget: 2000000},
+				{Name: "h02c", Pkg: binPkg, Params: map[string]int{"depth": 2, "budget": 2, "k": 1, "bin": 2}, Budget: 2000000},
+				{Name: "h02big", Pkg: binPkg, Params: map[string]int{}, Budget: 400000000, BigLim: 16},
 				{Name: "h02_witness", Pkg: binPkg, Params: map[string]int{"depth": 1, "budget": 2, "k": 1, "bin": 1}, ExpectViolation: true},
 			}
 		},
 		Bounds: func(tier string) map[string]interface{} {
 			p := params(tier)
 			return map[string]interface{}{"nesting_depth_max": p["depth"], "total_nodes_max": p["budget"], "container_len_max": p["k"], "binary_len_max": p["bin"],
-				"leaves": "all values of every scalar (symbolic), all field ids (symbolic, pairwise distinct)"}
+				"leaves": "all values of every scalar (symbolic), all field ids (symbolic, pairwise distinct)",
+				"segmentation": "h02c: every segmentation of the stream into reads for shapes of <= 2 nodes",
+				"large_binaries": "h02big: binaries of 1 MiB+1 and 1.5 MiB+1 bytes (pattern content, 3 symbolic bytes) through both decoders"}
 		},
 		Assume: commonAssume,
 	}
@@ -304,21 +308,30 @@ var pkgCompile = PkgDef{Path: compilePkg, Dir: "compile", Name: "compile", Files
 func checkC09() *CheckDef {
 	return &CheckDef{
 		ID:   "C09",
-		Pkgs: []PkgDef{pkgCompile},
+		Pkgs: []PkgDef{pkgCompile, pkgIdlInt},
 		Harnesses: func(tier string) []*sym.HarnessConfig {
 			var out []*sym.HarnessConfig
 			for part := 0; part <= 2; part++ {
-				out = append(out, &sym.HarnessConfig{Name: "h09", Pkg: compilePkg, Params: map[string]int{"part": part}, Budget: 3000000})
+				out = append(out, &sym.HarnessConfig{Name: "h09", Pkg: compilePkg, Params: map[string]int{"part": part, "nfields": 2}, Budget: 3000000})
 			}
-			out = append(out, &sym.HarnessConfig{Name: "h09_witness", Pkg: compilePkg, Params: map[string]int{"part": 0}, ExpectViolation: true})
+			out = append(out, &sym.HarnessConfig{Name: "h09", Pkg: compilePkg, Params: map[string]int{"part": 0, "nfields": 3}, Budget: 3000000})
+			// the numbers as written: integer literals through the real lexer and parser
+			for n := 1; n <= 3; n++ {
+				out = append(out, &sym.HarnessConfig{Name: "h11e", Pkg: idlIntPkg, Params: map[string]int{"n": n, "kind": 0}, Budget: 6000000})
+			}
+			for _, n := range []int{1, 2, 16} {
+				out = append(out, &sym.HarnessConfig{Name: "h11e", Pkg: idlIntPkg, Params: map[string]int{"n": n, "kind": 1}, Budget: 6000000})
+			}
+			out = append(out, &sym.HarnessConfig{Name: "h09_witness", Pkg: compilePkg, Params: map[string]int{"part": 0, "nfields": 2}, ExpectViolation: true})
 			return out
 		},
 		Bounds: func(tier string) map[string]interface{} {
 			return map[string]interface{}{
-				"program_shape": "one struct with 2 fields / one enum with 3 items / 5 integer constants (i8,i16,i32,i64,enum) + one i16 field default",
+				"program_shape": "one struct with 2 and with 3 fields (effective ids computed independently from the source) / one enum with 3 items / 5 integer constants (i8,i16,i32,i64,enum) + one i16 field default",
 				"numbers":       "every field id, enum value (explicit or implicit) and constant is a free 64-bit integer; strict and non-strict mode symbolic",
 				"map_iteration": "insertion order (order is not this property's subject)",
-				"outside":       "lexer int64 parsing and hex forms; programs of other shapes; self-referential constants/services",
+				"literals":      "decimal literals of 1..3 symbolic digits (optional sign) and hex literals (1..2 symbolic digits; 16 digits with a symbolic leading digit) through the real lexer+parser: value = the number written, out-of-range hex rejected",
+				"outside":       "longer literals; programs of other shapes; self-referential constants/services (C08's subject: `const i32 a = a` is accepted and a two-constant cycle overflows the stack — seen by a mutation agent, not checked here)",
 			}
 		},
 		Assume: commonAssume,
@@ -328,6 +341,10 @@ func checkC09() *CheckDef {
 const idlIntPkg = "go.uber.org/thriftrw/idl/internal"
 
 var pkgIdlInt = PkgDef{Path: idlIntPkg, Dir: "idl/internal", Name: "internal", Files: []string{"idl_internal/zz_h11.go"}}
+
+const astPkg = "go.uber.org/thriftrw/ast"
+
+var pkgAst = PkgDef{Path: astPkg, Dir: "ast", Name: "ast", Files: []string{"ast/zz_h11w.go"}}
 
 func checkC11() *CheckDef {
 	type bnd struct{ la, lb, lc, nd int }
@@ -339,7 +356,7 @@ func checkC11() *CheckDef {
 	}
 	return &CheckDef{
 		ID:   "C11",
-		Pkgs: []PkgDef{pkgIdlInt},
+		Pkgs: []PkgDef{pkgIdlInt, pkgAst},
 		Harnesses: func(tier string) []*sym.HarnessConfig {
 			b := bounds(tier)
 			var out []*sym.HarnessConfig
@@ -357,6 +374,13 @@ func checkC11() *CheckDef {
 			for n := 0; n <= b.nd; n++ {
 				out = append(out, &sym.HarnessConfig{Name: "h11d", Pkg: idlIntPkg, Params: map[string]int{"n": n}, Budget: 6000000})
 			}
+			for n := 1; n <= 3; n++ {
+				out = append(out, &sym.HarnessConfig{Name: "h11e", Pkg: idlIntPkg, Params: map[string]int{"n": n, "kind": 0}, Budget: 6000000})
+			}
+			for _, n := range []int{1, 2, 16} {
+				out = append(out, &sym.HarnessConfig{Name: "h11e", Pkg: idlIntPkg, Params: map[string]int{"n": n, "kind": 1}, Budget: 6000000})
+			}
+			out = append(out, &sym.HarnessConfig{Name: "h11w", Pkg: astPkg, Params: map[string]int{}, Budget: 6000000})
 			out = append(out, &sym.HarnessConfig{Name: "h11_witness", Pkg: idlIntPkg, Params: map[string]int{"n": 3, "dq": 1}, ExpectViolation: true})
 			return out
 		},
@@ -365,7 +389,9 @@ func checkC11() *CheckDef {
 			return map[string]interface{}{
 				"literal_bytes_max": b.la, "literal_grammar": "quotes + ASCII body with escapes \\n \\r \\t \\\\ \\' \\\" only (other escapes are outside the claim)",
 				"docstring_bytes_max": b.lb, "literal_in_context_bytes_max": b.lc, "arbitrary_document_bytes_max": b.nd,
-				"outside": "tree structure and positions of other constructs, ast.Walk, layout/separator combinations, documents longer than the bound",
+				"integer_literals": "decimal: 1..3 symbolic digits, optional sign; hex: 1..2 symbolic digits, and 16 digits with a symbolic leading digit",
+				"ast_walk":         "one program with a constant of each scalar kind (symbolic values), a list and a map: every node visited once with a parent",
+				"outside": "tree structure and positions of other constructs, layout/separator combinations, documents longer than the bound",
 			}
 		},
 		Assume: commonAssume,
@@ -502,13 +528,21 @@ func checkC16() *CheckDef {
 
 // ---- generated-code checks ----
 
-func genCorpus() []string {
-	return []string{filepath.Join(verifDir, "corpus", "vcore.thrift")}
+// genCorpus: the quick tier uses /verif/corpus; the thorough tier adds the
+// repository's own test schemas (as they are in the working tree).
+func genCorpus(tier string) []string {
+	out := []string{filepath.Join(verifDir, "corpus", "vcore.thrift")}
+	if tier == "thorough" {
+		for _, f := range []string{"structs", "containers", "unions", "enums", "typedefs", "exceptions", "services", "enum_conflict", "uuid_conflict", "set_to_slice", "stringdef"} {
+			out = append(out, filepath.Join(repoDir, "gen", "internal", "tests", "thrift", f+".thrift"))
+		}
+	}
+	return out
 }
 
 func genPrepare(k, l int) func(c *CheckDef, tier string) (map[string][]byte, []string, func(), error) {
 	return func(c *CheckDef, tier string) (map[string][]byte, []string, func(), error) {
-		info, cleanup, err := prepareGenerated(genCorpus(), k, l)
+		info, cleanup, err := prepareGenerated(genCorpus(tier), k, l)
 		if err != nil {
 			return nil, nil, nil, err
 		}
@@ -550,11 +584,13 @@ func checkC01() *CheckDef {
 	c.Harnesses = func(tier string) []*sym.HarnessConfig {
 		d := 2
 		out := genHarnesses(c, "gH01", map[string]int{"depth": d}, 20000000)
+		out = append(out, &sym.HarnessConfig{Name: "gHBig", Pkg: c.Gen.MainPkg, Params: map[string]int{"depth": 1}, Budget: 600000000, BigLim: 16})
 		out = append(out, &sym.HarnessConfig{Name: "gHWitness", Pkg: c.Gen.MainPkg, Params: map[string]int{"type": 0, "depth": 1}, Budget: 20000000, ExpectViolation: true})
 		return out
 	}
 	c.Bounds = func(tier string) map[string]interface{} {
 		return genBounds(c, map[string]interface{}{"containers_max": 1, "strings_max": 1, "struct_nesting": 2,
+			"large_values": "gHBig: a struct with a string and a binary of 1 MiB+1 bytes each (pattern content, 3 symbolic bytes each) through both deserializers",
 			"outside": "programs outside the corpus; generator option sets other than --no-zap --no-embed-idl; String(); constants and accessors"})
 	}
 	return c
@@ -588,13 +624,14 @@ func checkC04() *CheckDef {
 		}
 		out = append(out, genHarnesses(c, "gH04b", map[string]int{"depth": 2, "muts": b.muts, "simple": simple}, 20000000)...)
 		out = append(out, genHarnesses(c, "gH04v", map[string]int{"depth": 2}, 20000000)...)
+		out = append(out, genHarnesses(c, "gH04c", map[string]int{"depth": 2, "simple": 2, "free": 4}, 20000000)...)
 		out = append(out, &sym.HarnessConfig{Name: "gHWitness", Pkg: c.Gen.MainPkg, Params: map[string]int{"type": 0, "depth": 1}, Budget: 20000000, ExpectViolation: true})
 		return out
 	}
 	c.Bounds = func(tier string) map[string]interface{} {
 		b := bounds(tier)
 		return genBounds(c, map[string]interface{}{"arbitrary_bytes_max": b.n, "mutations_of_reference_encodings": fmt.Sprintf("truncation at every offset or %d arbitrary byte substitution(s)", b.muts),
-			"readers": "random access; streaming over seekable and one-shot non-seekable sources (segmentation independence of the stream reader is C03's result)",
+			"readers": "random access; streaming over seekable and one-shot non-seekable sources; gH04c: an encoding with an unknown leading field (14 shapes) decoded from a stream whose first 4 reads are arbitrarily segmented (incl. one zero-length read)",
 			"value_shapes": "mutated encodings: concrete leaves, containers of 1 element, every nilable field present (thorough: also all absent); value direction: shapes as in C01",
 			"outside":      "programs outside the corpus"})
 	}
